@@ -43,6 +43,9 @@ CLAIMS = {
  "C18": ("TLC model-checks the position life-cycle state machine (LifecycleModel) and generates behaviours; the harness replays them into the real program and probes every operation in "
          "every state; TLC validates each recorded instruction against the C18 predicates of the specification evaluated on the logged state (open / close / reset / reposition / lock / "
          "transfer-locked / bundle bitmap / token supply one / no mint authority / locked untouchable)", "the 256 bundle indexes are covered by seeded sampling across shards, not swept one by one", "4 C18"),
+ "C19": ("TLC generates the mint-shape cases (MintAdmissionModel) and the harness replays them through the real initialise instructions; TLC validates ok => Admitted and evaluates the "
+         "ParamsInBounds invariant of the specification on every projected state (mint admission runs, setter-bound probes, random histories incl. adaptive-fee pools)",
+         "quick samples 2800 of the 85550 mint cases; thorough replays all of them; extension bodies are zero-filled with the right lengths (the admission rule reads types, freeze authority and default state only)", "4 C19"),
  "C05": ("TLC model checking of LiqSum/TickSums/TickInit on the toy instance + the same invariants evaluated by TLC on the projected state after every "
          "recorded instruction (both tick-array encodings, Pinocchio handlers)", "as C01", "4 C05"),
  "C06": ("TLC model checking of StepsOK/SplitExact action properties on the toy instance + trace validation: per-step fee formula, protocol cut, growth "
